@@ -37,6 +37,27 @@ fn main() {
         std::process::exit(checks::c16::scenario_child(tier, &args[3]));
     }
     #[cfg(all(feature = "sched", jmespath_rs_verif))]
+    if id == "C16-intercept-child" {
+        // jpv C16-intercept-child <scenario> <seq | - | c0,c1,...>
+        std::process::exit(checks::c16::intercept_child(&args[2], &args[3]));
+    }
+    #[cfg(all(feature = "sched", jmespath_rs_verif))]
+    if id == "C16-intercept-explore" {
+        // jpv C16-intercept-explore <intercept-binary> <bound> <cap>: the intercepted leg alone (diagnosis)
+        let bound: usize = args[3].parse().unwrap();
+        let cap: u64 = args[4].parse().unwrap();
+        let mut bad = 0;
+        for s in checks::c16::intercept_scenarios() {
+            let t0 = std::time::Instant::now();
+            let r = checks::c16::explore_intercepted(&args[2], &s, s.max_bound.map_or(bound, |m| m.min(bound)), cap);
+            println!("{}: schedules={} points={} outcomes={} capped={} machinery={:?} wall={:.1}s failure={:?}", r.name, r.processes, r.scheduling_points, r.distinct_outcomes, r.capped, r.machinery, t0.elapsed().as_secs_f64(), r.failure.as_ref().map(|f| (&f.0, engine::trunc(&f.2, 200))));
+            if r.failure.is_some() {
+                bad = 1;
+            }
+        }
+        std::process::exit(bad);
+    }
+    #[cfg(all(feature = "sched", jmespath_rs_verif))]
     if id == "C16-first" {
         let ch: Vec<usize> = args[2].split(',').filter_map(|x| x.parse().ok()).collect();
         std::process::exit(checks::c16::first_use_child(ch));
